@@ -3,7 +3,7 @@
    URI parser, header-semantics hooks, content decoder, RFC 2047 decoder, Trailer element parser) and for
    both state machines. *)
 From Coq Require Import ZArith.
-From Httoop Require Import Model.Parser Proofs.ParserFuel Proofs.ParserFrag Proofs.ParserSim Proofs.ParserBridge Corr.Parser.
+From Httoop Require Import Model.Parser Proofs.ParserFuel Proofs.ParserFrag Proofs.ParserSim Proofs.ParserBridge Proofs.Http1ReaderP Proofs.ParserQuiet Corr.Parser.
 
 (* [real] is the implementation's machine.  [reference] has its three buffer-dependent shortcuts switched
    off: no bare-LF line-end fallback (finding D14), no 411 peek at the octets behind a message (D13), header
@@ -55,6 +55,24 @@ Proof. exact real_fragmentation. Qed.
 Print Assumptions C01_fragmentation_partial.
 
 (* the only permitted difference: the erroring call hands out nothing *)
+(* THE CLIENT MACHINE AS IMPLEMENTED, NO HYPOTHESIS ABOUT THE RUN.  The 411 peek exists on the server side only, so the
+   client machine has one buffer-dependent shortcut, the bare-LF fallback; it can only fire when the buffer of an idle
+   machine holds an LF but no CRLF.  If the stream is one that the reference machine parses completely into messages
+   whose start lines contain no LF, that never happens - on any fragmentation - and the machine as implemented
+   delivers exactly what one call on the whole stream delivers.  (Proofs/ParserQuiet.v: the reference machine's states
+   are tracked semantically, by what they still deliver; fragment independence preserves that for free.) *)
+Theorem C01_client_quiet : forall (C : callees) (wire : bytes) (ms : list msg) (frags : list bytes),
+  parse reference C Client init wire = (init, ms, None) -> Forall (fun m => no_lf (m_line m) = true) ms ->
+  concat_bytes frags = wire -> quiet_run C Client init frags = true.
+Proof. exact client_quiet. Qed.
+Print Assumptions C01_client_quiet.
+
+Theorem C01_client_any_fragmentation : forall (C : callees) (wire : bytes) (ms : list msg) (frags : list bytes),
+  parse reference C Client init wire = (init, ms, None) -> Forall (fun m => no_lf (m_line m) = true) ms ->
+  concat_bytes frags = wire -> run_keep real C Client init frags = (init, ms, None).
+Proof. exact client_any_fragmentation. Qed.
+Print Assumptions C01_client_any_fragmentation.
+
 (* the form in which the other properties use it: whatever ONE call on the whole stream delivers while ending idle, every
    fragmentation delivers - on the reference machine always, on the machine as implemented on every quiet run *)
 Theorem C01_whole_call_any_fragmentation : forall (C : callees) (k : kind) (wire : bytes) (ms : list msg) (frags : list bytes),
